@@ -9,20 +9,38 @@ if "--repo" in args:
     i = args.index("--repo"); repo = args[i + 1]; del args[i:i + 2]
 allp = "--all" in args
 args = [a for a in args if a != "--all"]
+jobs, shard = 1, None
+if "--jobs" in args:
+    i = args.index("--jobs"); jobs = int(args[i + 1]); del args[i:i + 2]
+if "--shard" in args:
+    i = args.index("--shard"); shard = tuple(int(x) for x in args[i + 1].split("/")); del args[i:i + 2]
+if jobs > 1 and shard is None:
+    # one worker per shard, each with its own scratch clone and its own work area (VERIF_WORK); merged at the end
+    ps = [subprocess.Popen([sys.executable, os.path.abspath(__file__), "--repo", repo, "--shard", "%d/%d" % (k, jobs)] + (["--all"] if allp else []) + args,
+                           env=dict(os.environ, SEED_SCRATCH="/tmp/seedrepo%d" % k, SEED_WORK="/tmp/seedwork%d" % k)) for k in range(jobs)]
+    for p_ in ps: p_.wait()
+    merged = {}
+    for k in range(jobs):
+        f = os.path.join(ROOT, "seeded", "MATRIX.%d.json" % k)
+        merged.update(json.load(open(f))); os.remove(f)
+    json.dump(dict(sorted(merged.items())), open(os.path.join(ROOT, "seeded", "MATRIX.json"), "w"), indent=1)
+    sys.exit(0)
 flt = args[0] if args else ""
 scratch = os.environ.get("SEED_SCRATCH", "/tmp/seedrepo")
 if os.path.exists(scratch): shutil.rmtree(scratch)
 subprocess.run(["git", "clone", "-q", repo, scratch], check=True)
 if os.path.isdir(os.path.join(repo, "target")):
     pass
-env = dict(os.environ, VERIF_REPO=scratch)
+work = os.environ.get("SEED_WORK", "/tmp/seedwork")
+os.makedirs(work, exist_ok=True)
+env = dict(os.environ, VERIF_REPO=scratch, VERIF_WORK=work)
 out = {}
 EXTRA = {"C01-orelse-becomes-maperr": ["C02"], "C10-chain-zip-not-hoisted": ["C11"], "C17-err-capture-name-swapped": ["C11"],
          "C19-move-wrapper-closure": ["C02"], "C02-move-closure-at-depth2": ["C19"], "C20-hashmap-def-order": ["C11"],
          "C06-next-step-filter-runs-later-steps": ["C05"], "C05-next-step-filter": ["C06"], "C13-then-guard-uses-transpose": []}
-for name in sorted(os.listdir(os.path.join(ROOT, "seeded"))):
+for idx, name in enumerate(sorted(n for n in os.listdir(os.path.join(ROOT, "seeded")) if os.path.isdir(os.path.join(ROOT, "seeded", n)) and flt in n)):
     d = os.path.join(ROOT, "seeded", name)
-    if not os.path.isdir(d) or flt not in name: continue
+    if shard is not None and idx % shard[1] != shard[0]: continue
     meta = json.load(open(os.path.join(d, "meta.json")))
     pids = [meta["property"]] + EXTRA.get(name, [])
     if allp: pids = ["C%02d" % i for i in range(1, 21) if i not in (8, 18)]
@@ -41,5 +59,6 @@ for name in sorted(os.listdir(os.path.join(ROOT, "seeded"))):
         print(name, pid, res[pid], flush=True)
     out[name] = res
     subprocess.run(["git", "-C", scratch, "checkout", "-q", "--", "."], check=True)
-json.dump(out, open(os.path.join(ROOT, "seeded", "MATRIX.json"), "w"), indent=1)
+json.dump(out, open(os.path.join(ROOT, "seeded", "MATRIX.json" if shard is None else "MATRIX.%d.json" % shard[0]), "w"), indent=1)
 shutil.rmtree(scratch)
+shutil.rmtree(work, ignore_errors=True)
